@@ -439,7 +439,7 @@ class C25(Property):
                             f.write(f"if [ \"$(wc -l < {shlex.quote(cnt)})\" -le 1 ]; then while [ ! -e {shlex.quote(go_file)} ]; do sleep 0.05; done; fi\n")
                         f.write(f"printf '%s' {shlex.quote(c['text'])}\nexit {c.get('rc', 0)}\n")
                     try:
-                        r = await conn.run(loc, ["sh", script], capture_output=True, timeout=2.0 if c["timeout"] else 20)
+                        r = await conn.run(loc, ["sh", script], capture_output=True, timeout=6.0 if c["timeout"] else 30)
                     except Exception as e:  # noqa: BLE001
                         r = ("exc:" + type(e).__name__, None)
                     results.append(r)
@@ -486,6 +486,10 @@ class C25(Property):
             replay = {"op": "policy", "seq": seq}
             if obs.get("hang"):
                 ctx.fail("policy:hang", f"sequence did not finish: {obs['hang']}", replay)
+                continue
+            if any(str(r[0]) == "exc:TimeoutError" for r in obs["results"]):
+                # the fallback subprocess itself exceeded the (generous) timeout: the machine is overloaded, nothing can be concluded
+                ctx.count("policy:not-judged(fallback subprocess slower than the timeout)")
                 continue
             fresh = [(c["text"].strip(), c.get("rc", 0)) for c in seq]
             # monitor: exactly once, and equal to fresh processes
